@@ -29,6 +29,15 @@ theorem udiv_qrnnd_preinv_spec (nh nl d di : Nat) (h1 : B / 2 ≤ d) (h2 : d < B
 
 example : udiv_qrnnd_preinv (B / 2) (B - 1) (B / 2 + 1) (invert_limb (B / 2 + 1)) = (B - 1, B / 2) := by decide
 
+/-- udiv_qrnnd_preinv1 (gmp-impl.h:2907, the branching variant; `udiv_qrnnd_preinv` can be switched to it
+    by one #define): same contract, all three correction branches. -/
+theorem udiv_qrnnd_preinv1_spec (nh nl d di : Nat) (h1 : B / 2 ≤ d) (h2 : d < B) (hnh : nh < d) (hnl : nl < B)
+    (hdi : di = invert_limb d) :
+    udiv_qrnnd_preinv1 nh nl d di = ((nh * B + nl) / d, (nh * B + nl) % d) := by
+  subst hdi; exact udiv_qrnnd_preinv1_eq nh nl d h1 h2 hnh hnl
+
+example : udiv_qrnnd_preinv1 (B / 2) (B - 1) (B / 2 + 1) (invert_limb (B / 2 + 1)) = (B - 1, B / 2) := by decide
+
 /-- mpir_invert_pi1 / invert_pi1 (gmp-impl.h:2831): for every normalised d1 and every d0 the macro
     returns the 3/2 reciprocal ⌊(B³−1)/(d1·B+d0)⌋ − B (all three adjustment branches covered). -/
 theorem invert_pi1_spec (d1 d0 : Nat) (hnorm : B / 2 ≤ d1) (hd1 : d1 < B) (hd0 : d0 < B) :
